@@ -14,7 +14,9 @@ TEXT = ("Decides the four structural lemmas the implementation's convergence arg
         "operation that applies remote changes passes through that recomputation for all trees before any normal return "
         "(post-dominance through the rayon closure); add() and unstage() re-validate. L3: the array-merge fold and the "
         "conflict listing iterate a BTreeSet<Revision> (content-defined order). L4: reload and refresh apply every block "
-        "of the whole block map that is Ready, and parse every listed block name. Relies on C05 (deterministic winner), "
+        "of the whole block map that is Ready, and parse every listed block name. L5: meld offers every item of the peer: "
+        "each copy loop iterates the peer's whole set and a copy is guarded only by absence on this side, the exclusion of "
+        "the other two item classes, and the success of the verified read (no further selection). Relies on C05 (deterministic winner), "
         "C18 (no order taint), C19 (canonical identifiers), C10/C11 (verified, content-named items). Does not decide "
         "equality of the merged *values* over all histories and delivery orders.")
 TRUSTED = ["rustc nightly MIR", "HashMap keyed insert / BTreeSet order semantics", "C05, C18, C19, C10, C11"]
@@ -240,10 +242,64 @@ def run(facts, res):
             res.violation("L4", "%s|listing-not-complete" % name, "%s does not parse every name returned by list_raw_items(DELTA_EXTENSION)" % name, b.loc())
     res.floor("L4", "apply / parse loops", n4, 3)
 
+    # ------------------------------------------------------------------ L5
+    res.rule("L5", "meld copies every item the peer holds and this replica lacks (no further selection)")
+    m = facts.body("melda::Melda::meld")
+    n5 = 0
+    if m is not None:
+        SEL = {"take", "skip", "step_by", "take_while", "skip_while", "rev", "nth", "last", "find"}
+        for cb in [m] + facts.closures_of(m.path):
+            for bi, t in cb.calls():
+                if t.callee is None or t.callee.name != R.name("raw_write"):
+                    continue
+                n5 += 1
+                extra = []
+                for l in lits_of(cb, bi, facts):
+                    if _copy_guard_ok(l):
+                        sel = {callee_name(x) for x in walk(l.term) if x[0] == "call"} & (SEL | {"filter", "filter_map"}) \
+                            if l.kind == "variant" and l.variants == {"Some"} and callee_name(peel(l.term)) == "next" else set()
+                        if sel:
+                            res.violation("L5", "meld|source-not-whole:%s" % ",".join(sorted(sel)),
+                                          "a meld copy loop iterates a selected part of the peer's items (%s)" % sorted(sel), cb.loc(t.line))
+                        continue
+                    extra.append(repr(l))
+                res.instance("L5", "%s: copy guarded only by absence / class exclusion / successful read: %s" % (cb.path, not extra), cb.loc(t.line))
+                if extra:
+                    res.violation("L5", "meld|copy-under-extra-condition",
+                                  "meld copies an item only under an additional condition %s: items the peer holds (and has validated) can be "
+                                  "withheld, so two replicas that melded both ways need not hold the same items" % extra[:2], cb.loc(t.line))
+        for s in cg.sites[m.path]:
+            if s.callee is not None and s.callee.name in ("for_each", "try_for_each") and any(
+                    tt.callee is not None and tt.callee.name == R.name("raw_write") for c_ in s.closures for _, tt in c_.calls()):
+                recv = arg_term(m, s.term, 0, 30)
+                names = {callee_name(x) for x in walk(recv) if x[0] == "call"}
+                if names & (SEL | {"filter", "filter_map"}):
+                    res.violation("L5", "meld|source-not-whole:%s" % ",".join(sorted(names & (SEL | {"filter", "filter_map"}))),
+                                  "a meld copy loop iterates a selected part of the peer's items (%s)" % sorted(names & (SEL | {"filter", "filter_map"})), s.loc())
+    res.floor("L5", "meld copy sites", n5, 3)
+
 
 def thorough(res):
     from .. import engine
     engine.sensitivity("C01", res)
+
+
+def _copy_guard_ok(l):
+    """accepted guards of a meld copy: `!ours.contains(_key)(item)`, `!item.ends_with(EXT)`, a successful (verified) read /
+    parse / serialisation of the item, the loop's own `next() is Some`"""
+    if l.kind == "call":
+        n = callee_name(l.term)
+        if n in ("contains", "contains_key", "ends_with", "is_err", "is_none"):
+            return l.truth is False
+        if n in ("is_ok", "is_some"):
+            return l.truth is True
+        return False
+    if l.kind == "variant":
+        pt = peel(l.term)
+        if pt[0] == "call" and callee_name(pt) == "next":
+            return True     # this loop's element / the exit edge of a preceding copy loop
+        return bool(l.variants) and l.variants <= {"Ok", "Some", "Continue"}
+    return False
 
 
 def _revalidates_all(facts, cg, body, site, depth):
